@@ -108,7 +108,7 @@ func (tc *typechecker) checkIdentifier(ident *ast.Identifier, used bool) *typeIn
 				if nestedFuncs := tc.scopes.Functions(); len(nestedFuncs) > 0 {
 					upvar := ast.Upvar{
 						NativeName:      ident.Name,
-						NativePkg:       ident.Name,
+						NativePkg:       ti.NativePackageName,
 						NativeValue:     rv,
 						NativeValueType: ti.Type,
 					}
@@ -2434,7 +2434,7 @@ func (tc *typechecker) checkPackageSelector(expr *ast.Selector) (*typeInfo, bool
 		// ti is a predefined variable.
 		upvar := ast.Upvar{
 			NativeName:      expr.Ident,
-			NativePkg:       ident.Name,
+			NativePkg:       ti.NativePackageName,
 			NativeValue:     rv,
 			NativeValueType: ti.Type,
 		}
